@@ -5,6 +5,7 @@ import (
 	"net"
 	"net/netip"
 	"runtime/debug"
+	"time"
 
 	"github.com/scionproto/scion/pkg/addr"
 	"github.com/scionproto/scion/pkg/private/ptr"
@@ -29,6 +30,10 @@ type IfSpec struct {
 	Sibling int
 	BFD     bool
 	MTU     int
+	// BFDRx / BFDTx / BFDMult: per-link BFD parameters as the topology file may
+	// carry them (zero: the router's defaults).
+	BFDRx, BFDTx time.Duration
+	BFDMult      uint8
 }
 
 // StarCfg configures one real data plane.
